@@ -7,6 +7,8 @@ from .. import paths
 from ..core import FUNC, call_attr, calls_in, const, dotted, is_const, kwarg, norm, text, walk_local
 
 EXPLANATION = [
+    'C06.adv-data-verbatim: the LE set-(extended-)advertising-data / scan-response-data handlers use command.advertising_data / command.scan_response_data as received (no method call, slice or arithmetic on it).',
+    'C06.link-address-fixed: in bumble.controller the self_address / peer_address of a link are passed to the Connection constructor and never assigned on an existing connection object.',
     'C06.initiate-while-scanning: in Controller.on_advertising_pdu the path to create_le_connection carries no condition on the scan state: reporting to a scanner and completing a pending connection are independent.',
     'C06.public-address-type: both places where Controller builds its public address from a string (constructor and property setter) pass the PUBLIC_DEVICE_ADDRESS type.',
     'C06.address-equality: Address.__eq__ compares exactly the address bytes and the public / random kind (is_public), so identity-typed and device-typed forms of one address are equal where the controller matches pending connections against advertisers.',
@@ -437,7 +439,45 @@ def initiate_while_scanning(ctx):
         R.check(not scan, rule, f'{CTRL}.on_advertising_pdu | create_le_connection', 'guarded by the pending connection and the advertiser address only', f'the pending connection is matched only when {scan}: a device that is scanning never sends its CONNECT_IND, connect() runs into its timeout while the advertiser keeps advertising', p.loc(c))
 
 
+def link_address_fixed(ctx):
+    """The two addresses of an established link are those it was set up with (the peer and the virtual link know it under
+    them): they are given to the Connection constructor and never assigned afterwards."""
+    R, p = ctx.r, ctx.p
+    rule = 'C06.link-address-fixed'
+    m = p.modules.get('bumble.controller')
+    if m is None:
+        R.bad(rule, 'bumble.controller', 'anchor missing')
+        return
+    n = sum(1 for c in ast.walk(m.tree) if isinstance(c, ast.Call) and call_attr(c) == 'Connection' and any(k.arg == 'self_address' for k in c.keywords))
+    for st in [x for x in ast.walk(m.tree) if isinstance(x, ast.Attribute) and isinstance(x.ctx, ast.Store) and (x.attr == 'self_address' or (x.attr == 'peer_address' and 'connection' in (dotted(x.value) or '').split('.')[-1])) and not (isinstance(x.value, ast.Name) and x.value.id == 'self')]:
+        R.bad(rule, f'{p.qual_of(st)} | {norm(st)}', f'`{norm(st)}` is reassigned on an existing link: the peer controller keeps the link under the address it was established with, so PDUs and the termination sent afterwards carry a source address the peer has no connection for (dropped; the peer is never told of the disconnection)', f'{m.rel}:{st.lineno}')
+    R.check(n >= 4, rule, 'bumble.controller | Connection(...) constructions', f'{n} constructions pass self_address; no later assignment', f'only {n} constructions found')
+
+
+def adv_data_verbatim(ctx):
+    """The advertising / scan response data the host sets is what goes on the air, octet for octet: the set-data handlers
+    use the command's field as it is (stored, copied or appended), never a trimmed or sliced version of it."""
+    R, p = ctx.r, ctx.p
+    rule = 'C06.adv-data-verbatim'
+    ci = p.cls(CTRL)
+    if ci is None:
+        R.bad(rule, CTRL, 'anchor missing')
+        return
+    n = 0
+    for name, fn in sorted(ci.methods.items()):
+        if not (name.startswith('on_hci_le_set_') and name.endswith('_data_command')):
+            continue
+        for a in [x for x in ast.walk(fn) if isinstance(x, ast.Attribute) and isinstance(x.value, ast.Name) and x.value.id == 'command' and x.attr in ('advertising_data', 'scan_response_data')]:
+            n += 1
+            par = getattr(a, '_parent', None)
+            altered = (isinstance(par, ast.Attribute) and par.value is a) or (isinstance(par, ast.Subscript) and par.value is a) or isinstance(par, ast.BinOp)
+            R.check(not altered, rule, f'{CTRL}.{name} | command.{a.attr}', 'used as received', f'{name} uses `{norm(par)[:60]}` instead of the data the host set: trailing / leading octets of the payload that happen to match are removed, what is advertised is not what was set', p.loc(a))
+    R.check(n >= 6, rule, f'{CTRL} | set-data handlers', f'{n} uses of the command payload', f'only {n} uses found')
+
+
 RULES = [
+    ('C06.adv-data-verbatim', adv_data_verbatim),
+    ('C06.link-address-fixed', link_address_fixed),
     ('C06.initiate-while-scanning', initiate_while_scanning),
     ('C06.public-address-type', public_address_type),
     ('C06.address-equality', address_equality),
